@@ -174,7 +174,24 @@ class RealConn(object):
             c.outbound_flow_control_window,
             opt(getattr(wm, 'current_window_size', None)), opt(getattr(wm, 'max_window_size', None)),
             c.max_outbound_frame_size, c.max_inbound_frame_size,
-            len(c.incoming_buffer.data))
+            len(c.incoming_buffer.data)) + ' | ss=' + self.peek_streams()
+
+    def peek_streams(self):
+        """per stream (dict order): sid:state:closed_by:out_win:in_win:in_max:flags:expected_len:actual_len"""
+        out = []
+        try:
+            for sid, st in self.conn.streams.items():
+                sm = st.state_machine
+                wm = st._inbound_window_manager
+                fl = ''.join('1' if x else '0' for x in (sm.headers_sent, sm.trailers_sent, sm.headers_received, sm.trailers_received))
+                fl += {True: 'T', False: 'F', None: '-'}[sm.client]
+                out.append('%d:%s:%s:%d:%d:%d:%s:%s:%d' % (
+                    sid, sm.state.name, sm.stream_closed_by.name if sm.stream_closed_by is not None else '-',
+                    st.outbound_flow_control_window, wm.current_window_size, wm.max_window_size, fl,
+                    opt(st._expected_content_length), st._actual_content_length))
+        except AttributeError:
+            return '?'
+        return ';'.join(out) or '.'
 
     def snapshot(self):
         """read-only view of the state the oracles reason about"""
